@@ -29,10 +29,19 @@ def chunk_coords_list(size, chunk):
 
 def sharding_dict(minishard_bits, shard_bits, preshift_bits, index_enc="raw",
                   data_enc="raw"):
-    return {"@type": SHARD_TYPE, "minishard_bits": minishard_bits,
-            "shard_bits": shard_bits, "preshift_bits": preshift_bits,
-            "hash": "identity", "minishard_index_encoding": index_enc,
-            "data_encoding": data_enc}
+    d = {"@type": SHARD_TYPE, "minishard_bits": minishard_bits,
+         "shard_bits": shard_bits, "preshift_bits": preshift_bits,
+         "hash": "identity", "minishard_index_encoding": index_enc,
+         "data_encoding": data_enc}
+    # the two encoding fields are optional and default to "raw": a third of
+    # the parameter triples leave out one field that has its default value (a
+    # hand-written info), the rest spell everything out (as the package does)
+    k = (minishard_bits + shard_bits + preshift_bits) % 6
+    if k == 1 and data_enc == "raw":
+        del d["data_encoding"]
+    elif k == 3 and index_enc == "raw":
+        del d["minishard_index_encoding"]
+    return d
 
 
 def make_scale(key, size, chunk, encoding="raw", resolution=(1, 1, 1),
